@@ -5,6 +5,7 @@ package main
 import (
 	"bufio"
 	"fmt"
+	"net"
 	"strconv"
 	"strings"
 
@@ -46,14 +47,32 @@ func c23ParseAuths(s string) []socks5.Authenticator {
 
 func c23Run(line string) string {
 	f := fields(line)
-	if (len(f) != 5 && len(f) != 6) || f[0] != "h" {
+	switch {
+	case f[0] == "j" && len(f) == 3: // net.JoinHostPort then net.SplitHostPort (what Agent.DialContext does)
+		port, _ := strconv.Atoi(f[2])
+		s := net.JoinHostPort(string(unhexTok(f[1])), strconv.Itoa(port))
+		h, p, err := net.SplitHostPort(s)
+		if err != nil {
+			return "s " + hexTok([]byte(s)) + " err"
+		}
+		return "s " + hexTok([]byte(s)) + " ok " + hexTok([]byte(h)) + " " + hexTok([]byte(p))
+	case f[0] == "ip" && len(f) == 2: // net.IP.String
+		return "text " + hexTok([]byte(net.IP(unhexTok(f[1])).String()))
+	}
+	if (len(f) < 5 || len(f) > 7) || f[0] != "h" {
 		return "bad-op"
 	}
 	frag := 0
-	if len(f) == 6 {
-		frag, _ = strconv.Atoi(f[5][1:])
-	}
 	w := &c23World{dial: f[2], udp: f[3][0], icmp: f[3][1]}
+	for _, x := range f[5:] {
+		switch {
+		case x[0] == 'f':
+			frag, _ = strconv.Atoi(x[1:])
+		case strings.HasPrefix(x, "relay:"): // relay:<client bytes after the reply>:<bytes the destination sends>
+			p := strings.Split(x, ":")
+			w.relay, w.clientData, w.targetData = true, unhexTok(p[1]), unhexTok(p[2])
+		}
+	}
 	h := socks5.NewHandler(c23ParseAuths(f[1]), w)
 	return c23Drive(h, w, unhexTok(f[4]), frag)
 }
@@ -221,6 +240,67 @@ func c23Gen(w *bufio.Writer, seed int64, tier string) {
 			}
 			emit(au, dial, "xx", msg)
 		}
+	}
+	// 3b. relay phase: after the success reply the client's bytes reach the destination and the
+	// destination's bytes reach the client, unchanged, until both sides are done
+	nr := 40
+	if thorough {
+		nr = 1500
+	}
+	for i := 0; i < nr; i++ {
+		d := dests[r.intn(len(dests))]
+		msg := append(append([]byte{}, greetings[r.intn(3)]...), c23Request(1, 0, d, ports[r.intn(len(ports))])...)
+		cl := r.bytes(r.pick(0, 1, 2, 17, 300, 4096, 70000))
+		tg := r.bytes(r.pick(0, 1, 5, 64, 1000, 40000, 100000))
+		dial := dials[r.intn(len(dials))]
+		fr := ""
+		if r.chance(20) {
+			fr = fmt.Sprintf(" f%d", 1+r.intn(3))
+			if len(cl) > 5000 {
+				cl = cl[:5000]
+			}
+		}
+		fmt.Fprintf(w, "h N %s xx %s relay:%s:%s%s\n", dial, hexTok(msg), hexTok(cl), hexTok(tg), fr)
+	}
+	// 3c. the text of addresses and the dial string, straight against net.IP.String and
+	// net.JoinHostPort/net.SplitHostPort: every pattern of zero groups, bracket/colon-laden hosts
+	for pat := 0; pat < 256; pat++ {
+		if !thorough && pat%4 != int(seed)%4 && pat > 40 {
+			continue
+		}
+		b := make([]byte, 16)
+		for g := 0; g < 8; g++ {
+			if pat&(1<<g) == 0 {
+				v := uint16(r.pick(1, 0xf, 0x10, 0xff, 0x100, 0xfff, 0x1000, 0xffff, 1+r.intn(65535)))
+				b[2*g], b[2*g+1] = byte(v>>8), byte(v)
+			}
+		}
+		fmt.Fprintf(w, "ip %s\n", hexTok(b))
+	}
+	for i := 0; i < 30; i++ {
+		fmt.Fprintf(w, "ip %s\n", hexTok(r.bytes(4)))
+		m := append([]byte{0, 0, 0, 0, 0, 0, 0, 0, 0, 0, 0xff, 0xff}, r.bytes(4)...)
+		if r.chance(30) {
+			m[r.intn(12)] ^= byte(1 << r.intn(8))
+		}
+		fmt.Fprintf(w, "ip %s\n", hexTok(m))
+	}
+	alphabet := []byte("[]:a1.%-")
+	hostsJ := []string{"a", "example.com", "[x]", "[1.2.3.4]", "[::1]", "::1", "a]:1[b", "[a", "a]", "[]", "[", "]", ":", "[:]", "x:y", "[x]y", "[x]:1", "1.2.3.4", "2001:db8::1", ""}
+	for _, hst := range hostsJ {
+		fmt.Fprintf(w, "j %s %d\n", hexTok([]byte(hst)), ports[r.intn(len(ports))])
+	}
+	nj := 150
+	if thorough {
+		nj = 5000
+	}
+	for i := 0; i < nj; i++ {
+		n := 1 + r.intn(6)
+		hb := make([]byte, n)
+		for k := range hb {
+			hb[k] = alphabet[r.intn(len(alphabet))]
+		}
+		fmt.Fprintf(w, "j %s %d\n", hexTok(hb), ports[r.intn(len(ports))])
 	}
 	// 4. random and mutated streams
 	n := 300
